@@ -189,6 +189,10 @@ fn qnames() -> Vec<QName> {
     for s in MARKER_OWNERS {
         v.push(QName { what: s, wire: name_wire(s) });
     }
+    // literal `*` labels (first label at the root, first label outside every non-root zone, interior label)
+    v.push(QName { what: "*.", wire: name_wire("*.") });
+    v.push(QName { what: "*.x. (outside every non-root zone)", wire: name_wire("*.x.") });
+    v.push(QName { what: "x.*.z. (interior *)", wire: name_wire("x.*.z.") });
     v.push(QName { what: "Z. (upper case)", wire: name_wire("Z.") });
     v.push(QName { what: "X.a.Z. (mixed case)", wire: name_wire("X.a.Z.") });
     v.push(QName { what: "255 octets under a.z.", wire: long_name(255, &name_wire("a.z."), b'l') });
@@ -203,6 +207,38 @@ fn qnames() -> Vec<QName> {
     v.push(QName { what: "label with a zero octet under z.", wire: vec![1, 0, 1, b'z', 0] });
     v.push(QName { what: "pointer c00c (to itself)", wire: vec![0xc0, 0x0c] });
     v
+}
+
+/// Systematic query names: ALL names of 1..=3 labels over a label alphabet, plus all 4-label names
+/// `l1.l2.a.z.` — every position (first, interior, last) of every special label at every depth
+/// relative to every catalog shape (`*.`, `*.z.`, `*.a.z.`, `*.x.`, `x.*.z.`, `*.*.z.`,
+/// `*.a.a.z.`, ...).
+const LABELS_QUICK: [&[u8]; 4] = [b"*", b"a", b"x", b"z"];
+const LABELS_THOROUGH: [&[u8]; 8] = [b"*", b"a", b"x", b"z", b"A", b".", b"\0", b"**"];
+
+fn sys_names(labels: &[&[u8]]) -> Vec<Vec<u8>> {
+    let labels: Vec<Vec<u8>> = labels.iter().map(|l| l.to_vec()).collect();
+    let wire = |seq: &[&Vec<u8>], suffix: &[u8]| {
+        let mut w = vec![];
+        for l in seq {
+            w.push(l.len() as u8);
+            w.extend_from_slice(l);
+        }
+        w.extend_from_slice(suffix);
+        w
+    };
+    let mut out = vec![];
+    for a in &labels {
+        out.push(wire(&[a], &[0]));
+        for b in &labels {
+            out.push(wire(&[a, b], &[0]));
+            out.push(wire(&[a, b], &name_wire("a.z.")));
+            for c in &labels {
+                out.push(wire(&[a, b, c], &[0]));
+            }
+        }
+    }
+    out
 }
 
 fn hname(wire: &[u8]) -> Name {
@@ -351,6 +387,12 @@ impl World {
         let mut owners: Vec<Name> = MARKER_OWNERS.iter().map(|s| Name::from_str(s).unwrap()).collect();
         owners.push(hname(&long_name(255, &name_wire("a.z."), b'l')));
         owners.push(hname(&long_name(255, &name_wire("o."), b'l')));
+        for w in sys_names(&LABELS_QUICK) {
+            let n = hname(&w);
+            if !owners.contains(&n) {
+                owners.push(n);
+            }
+        }
         World { qn, owners }
     }
 }
@@ -1070,7 +1112,7 @@ fn main() {
          each followed by a fixed probe query on the SAME server object. Configurations: 10 catalog shapes (single, nested 2/3, \
          siblings, root, root+z, empty, chained [skip-all, in-memory], root+a.z, z+a.a.z; every zone carries a TXT marker \
          naming itself at every queried owner it encloses) x 14 access-list/source configurations (v4, v4-mapped v6, v6) x \
-         UDP/TCP. Families: (F0) all configurations x 31 query names (apexes, names under each zone, outside every zone, root, \
+         UDP/TCP. Families: (F0b) all configurations x ALL names of 1..3 labels (+ all l1.l2.a.z.) over the label alphabet {*,a,x,z} (thorough: + {A, '.', NUL, **}) x {TXT,A,SOA} x EDNS {none,v0}; (F0) all configurations x 34 query names (apexes, names under each zone, outside every zone, root, \
          label-boundary near-misses, upper/mixed case, 255- and 256-octet names, compression pointers into the header) x 6 \
          plain qtypes x EDNS {none,v0,DO} x flags x ids; (F1) all configurations x names x qtypes x EDNS {none,v0,v1,v255,..} x \
          EVERY opcode 0..15; (F2) shapes x access classes x UDP/TCP x names x 9 qtypes x 4 qclasses x 16 EDNS variants (payload \
@@ -1105,8 +1147,8 @@ fn main() {
         let qtypes: [u16; 6] = [16, 1, 6, 2, 15, 28];
         let edns: [usize; 3] = [0, 1, 7];
         let flagsets: [u16; 3] = [0x0000, 0x0100, 0x0030];
-        let ids: [u16; 3] = [0, 1, 0xffff];
-        let od = Odometer::new(&[3, 3, 3, 6, nq, 2, nacl, nshape]);
+        let ids: [u16; 2] = [0, 0xffff];
+        let od = Odometer::new(&[2, 3, 3, 6, nq, 2, nacl, nshape]);
         let n = od.space();
         ctx.set("F0_zone_dispatch_cases", json!(n));
         ctx.par_run_init(
@@ -1127,6 +1169,31 @@ fn main() {
                 run_one(w, "F0", pl, &req, l);
                 if i % 100_003 == 0 {
                     l.sample(case_json("F0", pl, &req, None));
+                }
+            },
+        );
+    }
+
+    // ---- F0b: zone dispatch over the systematic label-alphabet names ------------------------
+    {
+        let names = if thorough { sys_names(&LABELS_THOROUGH) } else { sys_names(&LABELS_QUICK) };
+        let qtypes: [u16; 3] = [16, 1, 6];
+        let edns: [usize; 2] = [0, 1];
+        let od = Odometer::new(&[2, 3, names.len() as u64, 2, nacl, nshape]);
+        let n = od.space();
+        ctx.set("F0b_label_alphabet_names", json!(names.len()));
+        ctx.set("F0b_label_alphabet_cases", json!(n));
+        ctx.par_run_init(
+            n,
+            512,
+            |_| Worker::new(&world),
+            |i, l, w| {
+                let d = od.get(rotate(i, n, seed));
+                let pl = Place { shape: d[5] as usize, acl: d[4] as usize, tcp: d[3] == 1 };
+                let req = build_request(0x0b0b, 0x0100, &names[d[2] as usize], qtypes[d[1] as usize], 1, edns[d[0] as usize]);
+                run_one(w, "F0b", pl, &req, l);
+                if i % 50_021 == 0 {
+                    l.sample(case_json("F0b", pl, &req, None));
                 }
             },
         );
